@@ -252,6 +252,11 @@ func CrashChildMain(history string) {
 			fmt.Fprintf(ack, "error %d %s: %v\n", i, st.name, err)
 			os.Exit(3)
 		}
+		if w.b != nil && !strings.HasPrefix(st.name, "Close") {
+			if u, uerr := w.b.UUID(); uerr == nil {
+				fmt.Fprintf(ack, "uuid %s\n", u)
+			}
+		}
 		fmt.Fprintf(ack, "ack %d\n", i)
 		if os.Getenv("STOP_AFTER") != "" && i == stopAfter {
 			if strings.HasPrefix(st.name, "Close") {
@@ -337,6 +342,7 @@ func CrashDumpMain(dir string) {
 // ---- parent side ---------------------------------------------------------------------------------
 
 type crashRun struct {
+	uuid   string
 	acks   int
 	errors []string
 	stdout []byte
@@ -368,7 +374,9 @@ func runCrashChild(exe, so, history, dir string, crashAt, stopAfter int) crashRu
 	}
 	b, _ := os.ReadFile(ackFile)
 	for _, l := range strings.Split(string(b), "\n") {
-		if strings.HasPrefix(l, "ack ") {
+		if strings.HasPrefix(l, "uuid ") {
+			r.uuid = strings.TrimPrefix(l, "uuid ")
+		} else if strings.HasPrefix(l, "ack ") {
 			r.acks++
 		} else if strings.HasPrefix(l, "error ") {
 			r.errors = append(r.errors, l)
@@ -443,6 +451,9 @@ func RunCrash(rep *Report, history string, procs int, deadline time.Time) {
 			viol("reopen", fmt.Sprintf("after %d acknowledged calls (last: %s) and a process exit the bucket cannot be reopened: %s", a+1, steps[a].name, fresh.OpenErr), 0)
 			return
 		}
+		if inproc.UUID != "" && fresh.UUID != inproc.UUID {
+			viol("uuid", fmt.Sprintf("after %q and a process exit the reopened bucket has UUID %s, the writer saw %s", steps[a].name, fresh.UUID, inproc.UUID), 0)
+		}
 		if inproc.Tables != "(closed)" && fresh.Tables != inproc.Tables {
 			viol("durability", fmt.Sprintf("after %q returned and the process exited, a fresh process sees a different state than the writer saw:\n%s", steps[a].name, firstDiff(inproc.Tables, fresh.Tables)), 0)
 		}
@@ -471,6 +482,7 @@ func RunCrash(rep *Report, history string, procs int, deadline time.Time) {
 		dump   crashDump
 		err    error
 		killed bool
+		uuid   string
 	}
 	jobs := make(chan int)
 	results := make(chan res)
@@ -485,7 +497,7 @@ func RunCrash(rep *Report, history string, procs int, deadline time.Time) {
 				dump, err := runCrashDump(exe, d)
 				os.Remove(d + ".log")
 				os.RemoveAll(d)
-				results <- res{n, r.acks, dump, err, r.killed}
+				results <- res{n, r.acks, dump, err, r.killed, r.uuid}
 			}
 		}(k)
 	}
@@ -536,8 +548,9 @@ func RunCrash(rep *Report, history string, procs int, deadline time.Time) {
 		default:
 			viol("atomicity", fmt.Sprintf("killed at write-class system call %d, when %s: the reopened bucket holds neither the state before that call nor the state after it.\nvs before: %s\nvs after: %s", r.n, what, firstDiff(golden[a], r.dump.Tables), firstDiff(next, r.dump.Tables)), r.n)
 		}
-		if uuid != "" && r.dump.UUID != uuid && a >= 1 {
-			// each run creates its own bucket, so UUIDs differ between runs; within one directory it must not change
+		if r.uuid != "" && r.dump.UUID != r.uuid {
+			// (each run creates its own bucket, so UUIDs differ between runs; within one directory it must not change)
+			viol("uuid", fmt.Sprintf("killed at write-class system call %d (%s): the bucket reported UUID %s before the kill and %s after reopening", r.n, what, r.uuid, r.dump.UUID), r.n)
 		}
 		if r.dump.Expiry != "" && r.dump.Expiry != "ok" {
 			viol("pending-expiry", fmt.Sprintf("killed at write-class system call %d (%s): %s", r.n, what, r.dump.Expiry), r.n)
